@@ -28,6 +28,9 @@ EXTRA.append(N.mkgrid('2.0', [], [('g', [])],
                       [(C.BY_NAME['dt:fixed-600 gap'].n,), (C.BY_NAME['dt:fixed-540 gap'].n,), (C.BY_NAME['dt:fixed-480 gap'].n,), (C.BY_NAME['dt:fixed+570 gap'].n,),
                        (('str', u'astral \U0001f321 text'),), (('uri', u'http://x/\U0001f600/y'),)]))
 EXTRA.append(N.mkgrid('3.0', [], [('x', []), ('y', [])], [(('xstr', 'Hex', 'ff00'), ('xstr', 'B64', 'AAEC')), (('xstr', 'hex', b'\xff\x00'), ('ref', 'e', ''))]))
+# tags named like the structural keys of the OTHER level, columns named like tags
+EXTRA.append(N.mkgrid('2.0', [('name', ('str', 'grid tag called name')), ('rows', N.MARKER)], [('fw', [('ver', ('str', '1.4.2')), ('meta', N.MARKER)]), ('cols', []), ('id', [('name2', ('str', 'x'))])],
+                      [(N.num(1.0), ('str', 'c'), ('ref', 'r1', 'r1')), (N.NULL, N.NULL, ('ref', 'r2', None))]))
 ZBASE = list(c03.BASE) + EXTRA
 JBASE = list(c05.BASE) + EXTRA
 
